@@ -372,6 +372,13 @@ func (tc *TypeChecker) ValidateObjectAgainstTypeDef(obj map[string]interface{}, 
 				return fmt.Errorf("missing required field: %s", field.Name)
 			}
 		}
+		// `!` also means "cannot be null": a required field that is present
+		// must carry a value, whether or not it has a default.
+		if field.Required {
+			if value, exists := obj[field.Name]; exists && value == nil {
+				return fmt.Errorf("required field %s is null", field.Name)
+			}
+		}
 	}
 
 	// Validate field types
